@@ -427,14 +427,7 @@ Proof.
     destruct ps as [|p rest]; [exact HI|].
     destruct HI as (Hc & Hps & Hch). inversion Hps as [|? ? Hp Hrest]; subst.
     cbn in Hch. destruct Hch as [Hl Hch].
-    (* when an attempt to charge the parent panics, the child stays current
-       and the parent copy is dead *)
-    assert (Hfail : forall p', evolves p p' -> st p' = Killed -> Inv (mkMgr c (p' :: rest))).
-    { intros p' E Hk. split; [exact Hc|]. split.
-      - constructor; [eapply evolves_ok; eauto|exact Hrest].
-      - cbn. split.
-        + eapply link_dead_parent; eauto. rewrite Hk. discriminate.
-        + eapply chain_child_evolves; eauto. }
+    (* the parent is reinstated before it is charged: whether or not charging it terminates it, the stack is popped *)
     assert (Hsucc : forall p', evolves p p' -> Inv (mkMgr p' rest)).
     { intros p' E. split; [eapply evolves_ok; eauto|]. split; [exact Hrest|].
       cbn. eapply chain_child_evolves; eauto. }
@@ -450,9 +443,9 @@ Proof.
            destruct (updateTimeUsed now p2) as [p3 t]. cbn [fst] in E3.
            destruct t; cbn [mres_mgr]; apply Hsucc; eapply evolves_trans; eauto.
         -- cbn [mres_mgr]. apply Hsucc. exact E12.
-      * cbn [mres_mgr]. apply Hfail; [eapply evolves_trans; eauto|eapply requireMem_term; eauto].
+      * cbn [mres_mgr]. apply Hsucc. eapply evolves_trans; eauto.
       * exfalso. eapply requireMem_nopanic; eauto.
-    + cbn [mres_mgr]. apply Hfail; [exact E1|eapply requireCPU_term; eauto].
+    + cbn [mres_mgr]. apply Hsucc. exact E1.
     + exfalso. eapply requireCPU_nopanic; eauto.
   - apply lift_inv; [exact HI|apply requireCPU_evolves; apply HI].
   - apply lift_inv; [exact HI|apply requireMem_evolves; apply HI].
@@ -794,4 +787,17 @@ Proof.
     + lia.
     + lia.
   - eexists; split; [reflexivity|]. lia.
+Qed.
+
+(* PopContext reinstates the parent before charging it, so the context stack is popped on every path — also when
+   charging the parent terminates it (time limit reached while the child ran, stop request).  Before the repair
+   (fix: PopContext reinstates the parent before charging it) the child stayed current on those paths. *)
+Theorem pop_always_pops now c p rest :
+  parents (mres_mgr (pop now (mkMgr c (p :: rest)))) = rest.
+Proof.
+  unfold pop. cbn [parents cur].
+  destruct (requireCPU now (cpu (used c)) p) as [p1|p1 t1|p1]; cbn [mres_mgr parents]; try reflexivity.
+  destruct (requireMem (mem (used c)) p1) as [p2|p2 t2|p2]; cbn [mres_mgr parents]; try reflexivity.
+  destruct (trackTime p2); [|reflexivity].
+  destruct (updateTimeUsed now p2) as [p3 t]. destruct t; reflexivity.
 Qed.
